@@ -35,13 +35,24 @@ func (d *DebugUpgrader) Upgrade(conn io.ReadWriter) (hs ws.Handshake, err error)
 	if onRequest := d.OnRequest; onRequest != nil {
 		var buf bytes.Buffer
 		// First, we must read the entire request.
-		req, err := http.ReadRequest(bufio.NewReader(
+		br := bufio.NewReader(
 			io.TeeReader(conn, &buf),
-		))
+		)
+		req, err := http.ReadRequest(br)
 		if err == nil {
 			// Fulfill the buffer with the response body.
 			io.Copy(ioutil.Discard, req.Body)
 			req.Body.Close()
+		} else {
+			// The net/http parser gives up on the first line it does not
+			// like, while ws.Upgrader may accept the request. Read on to the
+			// end of the request head to report it as a whole.
+			for headEnd(buf.Bytes()) < 0 {
+				_, err := br.ReadSlice('\n')
+				if err != nil && err != bufio.ErrBufferFull {
+					break
+				}
+			}
 		}
 		onRequest(buf.Bytes())
 
